@@ -36,6 +36,7 @@ def stages_for(replay, tier, extra=None):
               extra=extra),
             g("V3", replay, "V3", leafs="V3_Leafs", comps="V3_Comps", maxsel=2, maxnodes=2, maxdepth=2, extra=extra),
             g("V3d", replay, "V3", leafs="V3_Leafs", dirs="V3_Dirs", maxsel=1, maxnodes=1, maxdepth=1, extra=extra),
+            g("V3s", replay, "V3", leafs="V3s_Leafs", dirs="V3s_Dirs", maxsel=2, maxnodes=2, maxdepth=1, extra=extra),
             g("V2", replay, "V2", decor="vdefs", leafs="V2_Leafs", dirs="V2_Dirs", frags="FragsF", spread="SpreadAny",
               maxsel=2, maxnodes=2, maxdepth=1, extra=extra),                               # 3 654 documents
             g("V5", replay, "V5", decor="ops", leafs="V5_Leafs", inlines="V5_Inlines", dirs="V5_Dirs", frags="FragsF",
@@ -49,6 +50,7 @@ def stages_for(replay, tier, extra=None):
           extra=extra),
         g("V3", replay, "V3", leafs="V3_Leafs", comps="V3_Comps", maxsel=2, maxnodes=3, maxdepth=2, extra=extra),
         g("V3d", replay, "V3", leafs="V3_Leafs", dirs="V3_Dirs", maxsel=1, maxnodes=1, maxdepth=1, extra=extra),
+        g("V3s", replay, "V3", leafs="V3s_Leafs", dirs="V3s_Dirs", maxsel=3, maxnodes=3, maxdepth=1, extra=extra),
         g("V2", replay, "V2", decor="vdefs", leafs="V2_Leafs", dirs="V2_Dirs", frags="FragsF", spread="SpreadAny",
           maxsel=2, maxnodes=2, maxdepth=1, extra=extra),                                   # 3 654
         g("V2n3", replay, "V2", decor="vdefs", leafs="V2_Leafs", frags="FragsF", spread="SpreadAny",
